@@ -459,7 +459,21 @@ func main() {
 					if si > 0 && mi > 0 && !e.Thorough {
 						continue
 					}
+					// SequentialScan re-reads the whole file for every fault index: in
+					// the quick tier the writer-made documents get all fault modes in
+					// Recover mode, from/only in Stop mode; the hand-written and policy
+					// documents get everything
+					saved := activeModes
+					if di >= nFixed && !e.Thorough && si == 0 {
+						if mi == 1 {
+							continue
+						}
+						if mi == 2 {
+							activeModes = fmodes[:2]
+						}
+					}
 					exploreSeq(di, d, mi)
+					activeModes = saved
 				}
 			}
 			if aborted() {
